@@ -436,14 +436,18 @@ def unit_poly_binop(eng, opname, shape):
     return verify(eng, name, run, post, func="deferred.LinearPolynomial.__add__")
 
 
-def unit_poly_scalar(eng, which, shape):
-    """p + n, n + p, p - n, n - p, p * n, n * p, -p with an integer n; var + n, var - var (BaseDeferred operators building polynomials)"""
-    name = "LinearPolynomial[%s,%s]" % (which, shape)
+def unit_poly_scalar(eng, which, shape, settled_first=False):
+    """p + n, n + p, p - n, n - p, p * n, n * p, -p with an integer n; var + n, var - var (BaseDeferred operators building polynomials); with
+    settled_first the polynomial's variables have become known between its construction and the operation (a definition evaluated in between)"""
+    name = "LinearPolynomial[%s,%s%s]" % (which, shape, ",variables-known-by-now" if settled_first else "")
 
     def run(eng):
         real(eng)
         vs = [poly_var(eng, "x%d" % i)[0] for i in range(3)]
         p = mk_poly(eng, [vs[i] for i in shape], "p")
+        if settled_first:
+            for i in shape:
+                eng.call(eng.getattr(vs[i], "settle"), [vs[i].attrs["_sigma"]], {})
         n = int_input(eng, "n")
         pv = poly_value(eng, p)
         A, S, M = ast.Add(), ast.Sub(), ast.Mult()
@@ -473,7 +477,7 @@ def unit_poly_scalar(eng, which, shape):
             eng.prove("a-cancelled-dependency-leaves-no-variable(base cancels in end - start)", isinstance(r, Obj) and r.attrs["coeffs"] == {})
     r = verify(eng, name, run, post, func="deferred.LinearPolynomial / BaseDeferred arithmetic")
     for o_ in r["obligations"]:
-        o_["cfg"] = dict(kind="poly-scalar", which=which, shape=list(shape))
+        o_["cfg"] = dict(kind="poly-scalar", which=which, shape=list(shape), settled_first=settled_first)
     return r
 
 
@@ -509,6 +513,7 @@ def replay_poly_scalar(cfg, tree, witness=None):
     code = """
 from pdpy11.deferred import Promise, LinearPolynomial, wait
 which, shape = %r, %r
+settled_first = %r
 sig = [7, 11, 13]
 results = []
 for n in %r:
@@ -522,13 +527,16 @@ for n in %r:
              "x+x": (lambda: x + x, 2 * sig[0]), "x+y": (lambda: x + y, sig[0] + sig[1]), "p+x": (lambda: p + x, pv + sig[0]), "x+x+x": (lambda: x + x + x, 3 * sig[0]),
              "x-p": (lambda: x - p, sig[0] - pv)}
     f, want = table[which]
+    if settled_first:
+        for i in shape: xs[i].settle(sig[i])
     r = f()
-    for v, s_ in zip(xs, sig): v.settle(s_)
+    for v, s_ in zip(xs, sig):
+        if not v.settled: v.settle(s_)
     got = wait(r)
     results.append(dict(n=n, want=want, got=got, ok=(got == want)))
 bad = [r_ for r_ in results if not r_["ok"]]
 result = dict(failing=bad[:3], ok=not bad)
-""" % (cfg["which"], list(cfg["shape"]), ns)
+""" % (cfg["which"], list(cfg["shape"]), bool(cfg.get("settled_first")), ns)
     jobs = [dict(kind="py", code=code)]
     r = driver.native(jobs, tree)[0]
     r = r.get("result") or r
@@ -993,6 +1001,9 @@ def all_units():
     for w in ("p+n", "n+p", "p-n", "n-p", "p*n", "n*p", "-p", "x+n", "n+x", "x-y", "x-x", "-x", "n*x", "x+p", "n-x", "x+x", "x+y", "p+x", "x+x+x", "x-p"):
         for sh in ((), (0,), (0, 1)):
             us.append(("poly[%s,%s]" % (w, sh), "unit_poly_scalar", dict(which=w, shape=sh)))
+    for w in ("p+n", "n+p", "p-n", "n-p", "p*n", "n*p", "-p", "x-p", "x+p", "p+x"):
+        for sh in ((0,), (0, 1), (1, 2)):
+            us.append(("poly[%s,%s,known]" % (w, sh), "unit_poly_scalar", dict(which=w, shape=sh, settled_first=True)))
     for sh, st in (((), ()), ((0,), (0,)), ((0,), ()), ((0, 1), (0, 1)), ((0, 1), (0,)), ((0,), (1,))):
         us.append(("poly-wait[%s,%s]" % (sh, st), "unit_poly_wait", dict(shape=sh, settled=st)))
     for sh in NESTED_SHAPES:
